@@ -275,7 +275,7 @@ def readOp (off : Nat) : J → R Op
     | _ => .error .outside
   | _ => .error .outside
 
-/-- `read_ops` when the module-level counter stands at `n`: the k-th op (from 0) gets offset `n + k + 1` -/
+/-- `read_ops(ops, counter)` when the per-document counter of `read_routines` stands at `n`: the k-th op (from 0) gets offset `n + k + 1` -/
 def readOpsFrom (n : Nat) : List J → R (List Op)
   | [] => .ok []
   | j :: js => consR (readOp (n + 1) j) (readOpsFrom (n + 1) js)
